@@ -359,7 +359,7 @@ def r4(ctx):
                     node = tr
                 ctx.check("C16.R4", okk, key(f, "swallowed|" + norm(c)), site(f, c), "an error raised by `%s` (rejected value, unknown setting) is swallowed by %s: start-up continues with the previous value" % (norm(c), why),
                           "errors propagate")
-    ctx.floor("C16.R4", "cfg.set call sites", n, 4)
+    ctx.floor("C16.R4", "cfg.set call sites", n, 3)
     f = ctx.fn(repo.func(APP + ".BaseApplication.do_load_config"))
     hs = [h for h in walk_own(f.node) if isinstance(h, ast.ExceptHandler)]
     okk = bool(hs) and all(isinstance(h.body[-1], ast.Expr) and isinstance(h.body[-1].value, ast.Call) and repo.call_target(f.module, f, h.body[-1].value) == "sys.exit" and
@@ -416,4 +416,4 @@ def r5(ctx):
             r = g.reachable([hn], follow_exc=True)
             ctx.check("C16.R5", g.exit not in r, key(f, "handler|" + hn.text), site(f, hn), "`%s` in %s can end in a normal return: a rejected value is silently replaced instead of stopping start-up" % (hn.text, f.short),
                       "handler raises")
-    ctx.floor("C16.R5", "except clauses in validators", n, 5)
+    ctx.floor("C16.R5", "except clauses in validators", n, 3)
